@@ -87,7 +87,12 @@ func checkSort(c *fw.Case, root *model.Root, orders []qframe.Order, class string
 	hooks.ResetSortCounters()
 	var res qframe.QFrame
 	c.Eval(1)
+	ordersCopy := append([]qframe.Order(nil), orders...)
 	if !c.GuardFail("sort", what, func() { res = root.QF.Sort(orders...) }) {
+		return
+	}
+	if fmt.Sprintf("%+v", orders) != fmt.Sprintf("%+v", ordersCopy) {
+		c.Fail("argument-changed", "Sort changed the caller's slice of orders from %+v to %+v", ordersCopy, orders)
 		return
 	}
 	h, n9, ins := hooks.SortCounters()
@@ -235,14 +240,52 @@ func c03Random(c *fw.Case, rng *rand.Rand) {
 		maxRows = 5000
 	}
 	rows := model.PickRows(rng, maxRows)
-	if maxRows > 5000 {
+	twoEnums := false
+	switch {
+	case c.No%1500 == 5:
+		// frames beyond 2^16 rows with every remainder modulo 4 (a sorter may split long inputs into parts)
+		rows = 65536 + rng.Intn(4500)
+		maxRows = rows
+		c.Count("frames_beyond_65536_rows", 1)
+	case c.No%60 == 21:
+		// several enum keys on a frame long enough for a distribution sort
+		rows = 512 + rng.Intn(2600)
+		maxRows = rows
+		twoEnums = true
+	}
+	if maxRows > 5000 && rows < 20000 {
 		rows = 20000 + rng.Intn(maxRows-20000)
 	}
 	o := model.GenOpts{Rows: rows, MinCols: 2, MaxCols: 6, ID: true, NoCR: true}
 	if rng.Intn(2) == 0 {
 		o.LowCard = 1 + rng.Intn(4)
 	}
+	if rows >= 65536 {
+		o.MinCols, o.MaxCols, o.NoNull = 2, 3, false
+		o.Kinds = []model.Kind{model.KInt, model.KFloat, model.KBool, model.KString}
+	}
 	f := model.GenFrame(rng, o)
+	if twoEnums {
+		for _, nm := range []string{"en1", "en2", "en3"} {
+			ec := model.GenCol(rng, nm, model.KEnum, rows, &model.GenOpts{NoCR: true, LowCard: 2 + rng.Intn(5)})
+			if !ec.Strict() {
+				// declared values: the order of the column is then specified
+				seen := map[string]bool{}
+				for _, p := range ec.S {
+					if p != nil && !seen[*p] {
+						seen[*p] = true
+						ec.EnumVals = append(ec.EnumVals, *p)
+					}
+				}
+				if len(ec.EnumVals) == 0 {
+					ec.EnumVals = []string{"only"}
+				}
+				rng.Shuffle(len(ec.EnumVals), func(i, j int) { ec.EnumVals[i], ec.EnumVals[j] = ec.EnumVals[j], ec.EnumVals[i] })
+			}
+			f.Cols = append(f.Cols, ec)
+		}
+		c.Count("frames_with_several_enum_keys", 1)
+	}
 	if rng.Intn(12) == 0 && rows >= 20 {
 		// an enum key column at the limits of its code space: 254 or 255 distinct values (declared or derived), with nulls
 		card := 254 + rng.Intn(2)
@@ -294,6 +337,14 @@ func c03Random(c *fw.Case, rng *rand.Rand) {
 	})
 	for k := 0; k < 4; k++ {
 		orders := genOrders(rng, root.Shadow, "")
+		if twoEnums && k < 2 && root.Shadow.Col("en1") != nil && root.Shadow.Col("en2") != nil && root.Shadow.Col("en3") != nil {
+			// only enum keys
+			orders = nil
+			for _, nm := range []string{"en1", "en2", "en3"}[:2+rng.Intn(2)] {
+				orders = append(orders, qframe.Order{Column: nm, Reverse: rng.Intn(2) == 0, NullLast: rng.Intn(2) == 0})
+			}
+			rng.Shuffle(len(orders), func(i, j int) { orders[i], orders[j] = orders[j], orders[i] })
+		}
 		if orders == nil {
 			return
 		}
